@@ -30,16 +30,16 @@ type c10Root struct {
 }
 
 var c10Roots = []c10Root{
-	{"rnbqkbnr/pppppppp/8/8/8/8/PPPPPPPP/RNBQKBNR w KQkq - 0 1", "g1f3 f3g1 b1c3 c3b1 g8f6 f6g8 b8c6 c6b8 h1g1 g1h1 h8g8 g8h8", [2]int{17, 24}},
-	{"r3k2r/8/8/8/8/8/8/R3K2R w KQkq - 0 1", "a1b1 b1a1 h1g1 g1h1 a8b8 b8a8 h8g8 g8h8 e1e2 e2e1 e8e7 e7e8", [2]int{15, 21}},
-	{"4k3/8/8/8/3p4/8/4P3/4K3 w - - 0 1", "e2e4 e2e3 e1d1 d1e1 e8d8 d8e8 d4e3", [2]int{17, 24}},
-	{"4k3/8/8/8/3pP3/8/8/4K3 b - e3 0 1", "e1d1 d1e1 e8d8 d8e8 d4e3 d4d3", [2]int{17, 24}},
-	{"4k3/8/8/8/4P3/8/8/4K1N1 b - e3 0 1", "e1d1 d1e1 e8d8 d8e8 g1f3 f3g1", [2]int{15, 21}},
-	{"8/8/8/8/k2pP2R/8/8/4K3 b - e3 0 1", "a4a5 a5a4 e1d1 d1e1 h4h5 h5h4", [2]int{15, 21}},
-	{"4k2r/8/8/8/8/8/8/4K2N b k - 0 1", "h8g8 g8h8 e8e7 e7e8 e1d1 d1e1 h1f2 f2h1 h8h1", [2]int{15, 21}},
-	{"k7/8/8/8/8/8/8/K6N w - - 0 1", "a1b1 b1a1 a8b8 b8a8 a1a2 a2a1 a8a7 a7a8 h1f2 f2h1", [2]int{14, 20}},
-	{"7k/5ppp/8/8/8/8/PPP5/K7 w - - 4 9", "a1b1 b1a1 h8g8 g8h8 a2a3 h7h6 a2a4 h7h5", [2]int{16, 22}},
-	{"6k1/8/8/8/2pP4/8/8/R3K3 b Q d3 0 1", "g8h8 h8g8 a1b1 b1a1 e1e2 e2e1 c4d3", [2]int{15, 21}},
+	{"rnbqkbnr/pppppppp/8/8/8/8/PPPPPPPP/RNBQKBNR w KQkq - 0 1", "g1f3 f3g1 b1c3 c3b1 g8f6 f6g8 b8c6 c6b8 h1g1 g1h1 h8g8 g8h8", [2]int{16, 24}},
+	{"r3k2r/8/8/8/8/8/8/R3K2R w KQkq - 0 1", "a1b1 b1a1 h1g1 g1h1 a8b8 b8a8 h8g8 g8h8 e1e2 e2e1 e8e7 e7e8", [2]int{14, 21}},
+	{"4k3/8/8/8/3p4/8/4P3/4K3 w - - 0 1", "e2e4 e2e3 e1d1 d1e1 e8d8 d8e8 d4e3", [2]int{16, 24}},
+	{"4k3/8/8/8/3pP3/8/8/4K3 b - e3 0 1", "e1d1 d1e1 e8d8 d8e8 d4e3 d4d3", [2]int{16, 24}},
+	{"4k3/8/8/8/4P3/8/8/4K1N1 b - e3 0 1", "e1d1 d1e1 e8d8 d8e8 g1f3 f3g1", [2]int{14, 21}},
+	{"8/8/8/8/k2pP2R/8/8/4K3 b - e3 0 1", "a4a5 a5a4 e1d1 d1e1 h4h5 h5h4", [2]int{14, 21}},
+	{"4k2r/8/8/8/8/8/8/4K2N b k - 0 1", "h8g8 g8h8 e8e7 e7e8 e1d1 d1e1 h1f2 f2h1 h8h1", [2]int{14, 21}},
+	{"k7/8/8/8/8/8/8/K6N w - - 0 1", "a1b1 b1a1 a8b8 b8a8 a1a2 a2a1 a8a7 a7a8 h1f2 f2h1", [2]int{13, 20}},
+	{"7k/5ppp/8/8/8/8/PPP5/K7 w - - 4 9", "a1b1 b1a1 h8g8 g8h8 a2a3 h7h6 a2a4 h7h5", [2]int{15, 22}},
+	{"6k1/8/8/8/2pP4/8/8/R3K3 b Q d3 0 1", "g8h8 h8g8 a1b1 b1a1 e1e2 e2e1 c4d3", [2]int{14, 21}},
 }
 
 func c10Allowed(alpha string) map[string]bool {
